@@ -2354,6 +2354,13 @@ class MovieExtendsHeaderBox(FullBox):
 
 @fourcc('saiz')
 class SampleAuxiliaryInformationSizesBox(FullBox):
+    def __init__(self, **kwargs) -> None:
+        aux_info_type = kwargs.get('aux_info_type')
+        if isinstance(aux_info_type, str):
+            # the JSON form of this field is a hex string
+            kwargs['aux_info_type'] = int(aux_info_type, 16)
+        super().__init__(**kwargs)
+
     @classmethod
     def parse(clz, src, parent, **kwargs):
         rv = FullBox.parse(src, parent, **kwargs)
@@ -2383,7 +2390,7 @@ class SampleAuxiliaryInformationSizesBox(FullBox):
                 w.write('B', 'size', value=sz)
 
     def _to_json(self, exclude):
-        exclude.add('aux_info_type')
+        exclude = exclude.union({'aux_info_type'})
         fields = super(FullBox, self)._to_json(exclude)
         if "aux_info_type" in self._fields:
             fields['aux_info_type'] = '0x%x' % self.aux_info_type
@@ -2585,6 +2592,13 @@ class ProtectionSchemeTypeBox(FullBox):
 class SampleAuxiliaryInformationOffsetsBox(FullBox):
     DEPENDS_UPON = {'moof', 'senc', 'tfhd'}
 
+    def __init__(self, **kwargs) -> None:
+        aux_info_type = kwargs.get('aux_info_type')
+        if isinstance(aux_info_type, str):
+            # the JSON form of this field is a hex string
+            kwargs['aux_info_type'] = int(aux_info_type, 16)
+        super().__init__(**kwargs)
+
     @classmethod
     def parse(clz, src, parent, **kwargs):
         rv = FullBox.parse(src, parent, **kwargs)
@@ -2659,7 +2673,7 @@ class SampleAuxiliaryInformationOffsetsBox(FullBox):
             dest.seek(pos)
 
     def _to_json(self, exclude):
-        exclude.add('aux_info_type')
+        exclude = exclude.union({'aux_info_type'})
         fields = super(FullBox, self)._to_json(exclude)
         if "aux_info_type" in self._fields:
             fields['aux_info_type'] = '0x%x' % self.aux_info_type
